@@ -76,6 +76,8 @@ type scen struct {
 	Env     int            `json:"env,omitempty"`    // kind "hist": 1 = skyway environment, 2 = tokenfactory / paloma environment
 	Hist    []scen         `json:"hist,omitempty"`   // kind "hist": an object history, every step delivered like a single case
 	Depth   int            `json:"depth,omitempty"`  // kind "nest": levels of authz.MsgExec around the message Tx[0]
+	Valset  uint64         `json:"valset_id,omitempty"` // SetPublicAccessData: the valset id the data is published for (0 = 1)
+	Multi   []int          `json:"multi,omitempty"`  // AddExternalChainInfoForValidator: several accounts for the SAME chain, in order: whose registered address each one is (validator index; -1, -4, -5: fresh ones)
 }
 
 type built struct {
@@ -88,6 +90,7 @@ type built struct {
 	// (factory/<creator of the denom>/<sub>) while the message's creator is its admin: the admin
 	// role was handed over by them, what moves is the admin's
 	nameOnly []int
+	post     func(ctx sdk.Context) string // extra invariant on the state after an accepted delivery ("" = holds)
 }
 
 func (e *env) meta(s scen) vtypes.MsgMetadata {
@@ -314,7 +317,11 @@ func (e *env) build(t *testing.T, s scen) (*built, error) {
 			b.biz = isVal(s.Creator) && exists
 			b.run = func(ctx sdk.Context) error { _, err := e.cons.AddEvidence(ctx, m); return err }
 		case "consensus.MsgSetPublicAccessData":
-			m := &consensustypes.MsgSetPublicAccessData{Metadata: md, MessageID: s.TxID, QueueTypeName: e.queue, Data: []byte(fmt.Sprintf("txhash-by-%d", s.Creator)), ValsetID: 1}
+			vid := s.Valset
+			if vid == 0 {
+				vid = 1
+			}
+			m := &consensustypes.MsgSetPublicAccessData{Metadata: md, MessageID: s.TxID, QueueTypeName: e.queue, Data: []byte(fmt.Sprintf("txhash-by-%d", s.Creator)), ValsetID: vid}
 			b.msg = m
 			b.biz = isVal(s.Creator) && exists
 			b.run = func(ctx sdk.Context) error { _, err := e.cons.SetPublicAccessData(ctx, m); return err }
@@ -337,6 +344,26 @@ func (e *env) build(t *testing.T, s scen) (*built, error) {
 		}
 		m := &vtypes.MsgAddExternalChainInfoForValidator{Metadata: md, ChainInfos: []*vtypes.ExternalChainInfo{
 			{ChainType: "evm", ChainReferenceID: chain, Address: addrS, Pubkey: pub}}}
+		type acct struct {
+			addr string
+			pub  []byte
+		}
+		accts := []acct{{addrS, pub}}
+		if len(s.Multi) > 0 {
+			// several accounts for the same chain in one message
+			m.ChainInfos, accts = nil, nil
+			for k, w := range s.Multi {
+				a := acct{fmt.Sprintf("0x88888888888888888888888888888888888888%02x", (s.Creator+1)*8-w), []byte(fmt.Sprintf("fresh-pub-%02d-%07d", -w, s.Creator+1))}
+				if isVal(w) {
+					a = acct{keeper.EthAddrs[w].String(), keeper.EthAddrs[w].Bytes()}
+					if s.Erc == "lower" && k == 0 {
+						a.addr = strings.ToLower(a.addr)
+					}
+				}
+				accts = append(accts, a)
+				m.ChainInfos = append(m.ChainInfos, &vtypes.ExternalChainInfo{ChainType: "evm", ChainReferenceID: chain, Address: a.addr, Pubkey: a.pub})
+			}
+		}
 		b.msg = m
 		// other validators' entries are compared by exact address string OR public key; the creator's
 		// own entries are skipped (a re-registration, whatever the spelling)
@@ -357,14 +384,37 @@ func (e *env) build(t *testing.T, s scen) (*built, error) {
 					continue
 				}
 				for _, ci := range ev.ExternalChainInfo {
-					if ci.ChainType == "evm" && ci.ChainReferenceID == chain && (ci.Address == addrS || bytes.Equal(ci.Pubkey, pub)) {
-						collide = true
+					for _, a := range accts {
+						if ci.ChainType == "evm" && ci.ChainReferenceID == chain && (ci.Address == a.addr || bytes.Equal(ci.Pubkey, a.pub)) {
+							collide = true
+						}
 					}
 				}
 			}
 		}
 		b.biz = isVal(s.Creator) && !collide
 		b.run = func(ctx sdk.Context) error { _, err := e.valset.AddExternalChainInfoForValidator(ctx, m); return err }
+		// an external account registered to a validator is held in that validator's name: after the
+		// delivery no account (exact address or key: the code's own collision rule) may be attributed to
+		// two validators
+		b.post = func(ctx sdk.Context) string {
+			all, err := vk.GetAllChainInfos(ctx)
+			if err != nil {
+				return ""
+			}
+			for i, x := range all {
+				for _, y := range all[i+1:] {
+					for _, cx := range x.ExternalChainInfo {
+						for _, cy := range y.ExternalChainInfo {
+							if cx.ChainType == cy.ChainType && cx.ChainReferenceID == cy.ChainReferenceID && (cx.Address == cy.Address || bytes.Equal(cx.Pubkey, cy.Pubkey)) {
+								return fmt.Sprintf("external account %s on %s is registered to %s AND to %s", cx.Address, cx.ChainReferenceID, x.Address, y.Address)
+							}
+						}
+					}
+				}
+			}
+			return ""
+		}
 	case "treasury.MsgUpsertRelayerFee":
 		v := nm("FeeSetting.ValAddress")
 		va := "not-an-address"
@@ -541,6 +591,7 @@ type obs struct {
 	Ante, Ok bool
 	Touched  []int
 	Err      string
+	Post     string `json:",omitempty"` // a state invariant of the message kind that no longer holds after the delivery
 }
 
 // beneficiary fields, read from the reviewed table (the oracle's own reading of it)
@@ -671,6 +722,9 @@ func (e *env) deliver(b *built, s scen) obs {
 			}
 		}
 	}
+	if b.post != nil {
+		o.Post = b.post(e.ctx)
+	}
 	exempt := map[int]bool{}
 	if e.three {
 		// relay duty of a NEWLY queued message is assigned by the chain's relayer selection (a function
@@ -721,6 +775,9 @@ func oracleR(run *emit.Run, s scen, b *built, o obs, replay any) {
 	}
 	if !o.Ok {
 		return
+	}
+	if o.Post != "" {
+		run.Violate("C03:"+s.Kind+":held-by-two", fmt.Sprintf("%s signed by %v (creator %d) was accepted and now %s", s.Kind, s.Signers, s.Creator, o.Post), replay)
 	}
 	sk := 0
 	if b.msg != nil {
@@ -1007,9 +1064,12 @@ func genScen(r *rand.Rand, kind string, hostile bool) scen {
 		case "consensus.MsgAddMessageGasEstimates":
 			named("EstimatedByAddress", 70)
 		}
-		if r.Intn(2) == 0 {
+		if kind == "consensus.MsgSetPublicAccessData" {
+			s.Valset = uint64(1 + r.Intn(3))
+		}
+		if r.Intn(2) == 0 || (kind == "consensus.MsgSetPublicAccessData" && r.Intn(3) != 0) {
 			other := r.Intn(nVals)
-			pre := scen{Kind: kind, Creator: other, Signers: []int{other}, TxID: s.TxID, SigBy: other, Named: map[string]int{}}
+			pre := scen{Kind: kind, Creator: other, Signers: []int{other}, TxID: s.TxID, SigBy: other, Named: map[string]int{}, Valset: uint64(1 + r.Intn(3))}
 			if r.Intn(3) == 0 {
 				pre.Creator = -2 // resolved by fixEnv3: the validator the message is assigned to
 			}
@@ -1058,6 +1118,15 @@ func genScen(r *rand.Rand, kind string, hostile bool) scen {
 		s.Named["ChainInfos.Address"] = pick(r, s.Creator, r.Intn(nVals), r.Intn(nVals), -1)
 		if r.Intn(5) == 0 {
 			s.Erc = "lower"
+		}
+		if r.Intn(2) == 0 {
+			// 2-3 accounts for the same chain: another validator's account first / in the middle / last
+			other := (s.Creator + 1 + r.Intn(nVals-1)) % nVals
+			s.Multi = []int{-1, -4, -5}[:2+r.Intn(2)]
+			s.Multi[r.Intn(len(s.Multi))] = pick(r, other, other, other, s.Creator)
+			if r.Intn(4) == 0 {
+				s.Multi[r.Intn(len(s.Multi))] = pick(r, other, s.Creator)
+			}
 		}
 	case "scheduler.MsgCreateJob":
 		// somebody else owns a job; the message's id is that id, a near-miss spelling of it, or a fresh one
